@@ -3,6 +3,12 @@
 import json, glob, os
 
 STRENGTHENED = {
+ 'C02e-batch-apply-decided-by-last-entry': '- (the divergence needs two replicas that group the same committed entries into apply tasks differently, with registered and NoOP sessions mixed on a concurrent state machine; the session model of C05 (rsmcheck/sessions, PRNG task boundaries on a concurrent state machine) sees the cause in every run)',
+ 'C03e-applied-index-published-before-config-change': 'E1: in a third of the C03 / C07 cases a quarter of the applied membership changes run one step-worker iteration (with 0-19 piled-up ticks) after the state machine side and before node.ApplyConfigChange hands the change to the raft core - the two workers only meet at raftMu; a campaign launched in such a step is a violation (17017 such steps per quick run, every one skipped its campaign on the unchanged tree)',
+ 'C06e-pooled-requeststate-keeps-unconsumed-result': 'requests stage (C12): 3 clients that issue Propose / ReadIndex, do not look at the result channel and Release after 0-12 ms (an object released with an unconsumed result goes back to the pool); readstorm stage (C06): 2 such clients on the slow follower',
+ 'C10e-tan-record-write-error-overwritten': 'storecheck fault workloads: in every second workload the entries of the last SaveRaftState carry 40-70 KB commands (a record of several 32 KB blocks); every file-system operation of the last save is a fault point in the quick tier',
+ 'C13e-frame-crc-zero-means-unset': 'frames stage: a frame class whose payload CRC32 or header CRC32 is a boundary value of the checksum field (0, 2^32-1, 1, 2^31), four command bytes solved over GF(2) (extended before the first measured run)',
+ 'C14e-blockreader-shared-hasher': 'snapcheck/rw: after the sequential cases of a batch 8 readers load 6 multi-block images for 6 (thorough: 30) rounds at overlapping times while 2 writers produce and verify new images; every load must be byte-identical',
  'C01e-heartbeatresp-confirms-every-pending-read': '- (needs 5 voters, a deposed leader with one follower and a delayed confirmation: the read-confirmation monitor of C06 sees the cause in every run, the history oracle of C01 does not reach the stale read in the quick tier)',
  'C04e-prepare-outside-the-lock': 'the comparison of every replica with the replay of the committed log (replay stage) reports to C04 as well when the replica went through a recovery; the first trial of C04 / C08 had died on defect 22 of the unchanged tree (the scratch copy predated its fix) and was repeated',
  'C11e-concurrent-save-sessions-after-prepare': 'rsmcheck/twins: in half of the overlapped saves an apply batch is already queued behind the lock when PrepareSnapshot returns (it runs right after the section that fixes index, sessions and image)',
